@@ -84,8 +84,11 @@ func (w *l1World) reimport() *core.Violation {
 	if n2 == nil {
 		return w.fail(mismatch{"genesis.import-failed", "l1-import-failed", own, "a fresh L1 node could not be initialised from the exported genesis"})
 	}
+	// for every property but C16 the restart is just one more fault: C16's own oracle
+	// (second export identical) is not evaluated and the property's invariants judge
+	// the restarted chain
 	st2 := n2.ExportAppState()
-	if d := diffState(st, st2); d != "" {
+	if d := diffState(st, st2); d != "" && w.p.Prop == "C16" {
 		return w.fail(mismatch{"genesis.round-trip", "l1-export-not-fixed-point", own, "L1 export -> import -> export is not the identity: " + d})
 	}
 	w.r.Step("reimport", "L1 restarted from exported genesis at height %d (%d bytes of ophost state)", n2.Height(), len(st[ophosttypes.ModuleName]))
@@ -94,6 +97,10 @@ func (w *l1World) reimport() *core.Violation {
 	w.prevDig = map[string][32]byte{}
 	w.ownAll = w.p.Prop == "C16"
 	// the fresh node executed one empty block at the next height; its state must still match the model
+	// (for other properties than C16 only what they own is judged here: their message-level
+	// oracles get to see the restarted chain before a foreign state deviation ends the run)
+	w.lenient = w.p.Prop != "C16"
+	defer func() { w.lenient = false }()
 	return w.compare(blockCtx{Height: n2.Height(), Time: w.now}, true)
 }
 
@@ -122,15 +129,15 @@ func (w *l2World) reimport() *core.Violation {
 	for _, u := range n2.InitValidators {
 		k := fmt.Sprintf("%x", pkBytes(u.PubKey))
 		if _, dup := iv[k]; dup {
-			return w.fail(mismatch{"genesis.init-validators", "l2-init-validators", own, "InitChain returned a validator key twice"})
+			return w.fail(mismatch{"genesis.init-validators", "l2-init-validators", []string{"C16", "C13"}, "InitChain returned a validator key twice"})
 		}
 		iv[k] = u.Power
 	}
 	if d := diffPowers(iv, w.eng.Powers()); d != "" {
-		return w.fail(mismatch{"genesis.init-validators", "l2-init-validators", own, "the validator updates returned by InitChain after import differ from the bonded set: " + d})
+		return w.fail(mismatch{"genesis.init-validators", "l2-init-validators", []string{"C16", "C13"}, "the validator updates returned by InitChain after import differ from the bonded set: " + d})
 	}
 	st2 := n2.ExportAppState()
-	if d := diffState(st, st2); d != "" {
+	if d := diffState(st, st2); d != "" && w.p.Prop == "C16" {
 		return w.fail(mismatch{"genesis.round-trip", "l2-export-not-fixed-point", own, "L2 export -> import -> export is not the identity: " + d})
 	}
 	w.r.Step("reimport", "L2 restarted from exported genesis at height %d (%d bytes of opchild state)", n2.Height(), len(st[opchildtypes.ModuleName]))
@@ -147,6 +154,8 @@ func (w *l2World) reimport() *core.Violation {
 	w.ownAll = w.p.Prop == "C16"
 	res, err := emptyResult()
 	_ = err
+	w.lenient = w.p.Prop != "C16"
+	defer func() { w.lenient = false }()
 	return w.endOfBlock(blockCtx{Height: n2.Height(), Time: w.now}, res, true)
 }
 
